@@ -282,9 +282,9 @@ def _spatial(ck: Checker, prog: Program):
     # culling
     m = cls.methods["_cull_points"]
     cfg = cfg_of(m)
-    loops = [st for st in m.node.body if isinstance(st, ast.For)]
+    loops = [st for st in m.node.body if isinstance(st, ast.For) and any(True for _ in calls_in(st, "append"))]
     if len(loops) != 1:
-        raise AnalysisError(f"{m.qualname}: loop not found")
+        raise AnalysisError(f"{m.qualname}: the loop that collects the retained sensors is not recognised (found {len(loops)} loops with appends)")
     lp = loops[0]
 
     def classify(n):
